@@ -1,9 +1,29 @@
 (* C06 - matrices: the specification MatrixOf is defined from the semantics; obligations here are the
    semantic facts the checkers rely on. *)
 From Coq Require Import NArith List Bool.
-From OFV Require Import Base.Cplx Base.Lin Sem.PauliSem Model.QubitOp Thm.C01.QubitHom.
+From OFV Require Import Base.Cplx Base.Lin Sem.PauliSem Model.QubitOp Thm.C01.QubitHom Model.LinearOp Thm.C06.LinearOpSound.
 Import ListNotations.
 (* products of operators denote composition (hence MatrixOf (a b) = MatrixOf a . MatrixOf b) *)
 Theorem C06_denotation_multiplicative : forall a b s, leq N.eqb (qden (qmul a b) s) (lbind (qden b s) (qden a)).
 Proof. exact qmul_hom. Qed.
 Print Assumptions C06_denotation_multiplicative.
+
+(* LinearQubitOperator._matvec (model Model/LinearOp.v, tied to the code by correspondence): the list-of-pieces algorithm equals the
+   application of every factor to the whole vector, for every number of qubits, every canonical term and every vector *)
+Theorem C06_linear_operator_term_is_tree_action : forall n w c t, perfect n t -> increasing_from 0 n w ->
+  lqo_term w c t = map (Cmul c) (flatten (fold_left tree_step w t)).
+Proof. exact lqo_term_tree. Qed.
+Print Assumptions C06_linear_operator_term_is_tree_action.
+(* ... and that is the column of the Pauli semantics: the basis state with qubit values k (amplitude number idx k, big-endian) is
+   sent to the amplitude of mask' with coefficient c * phase, where (phase, mask') = apply_word w (mask of k) *)
+Theorem C06_linear_operator_term_correct : forall n w c t k, perfect n t -> increasing_from 0 n w -> length k = n ->
+  exists k', length k' = n /\
+    apply_word w (mask_of_path k) = (fst (apply_word w (mask_of_path k)), mask_of_path k') /\
+    nth (idx k') (lqo_term w c t) C0 = Cmul c (Cmul (fst (apply_word w (mask_of_path k))) (nth (idx k) (flatten t) C0)).
+Proof. exact lqo_term_correct. Qed.
+Print Assumptions C06_linear_operator_term_correct.
+(* the returned vector is the entrywise sum over the terms *)
+Theorem C06_linear_operator_is_sum_of_terms : forall n op x i, canonical_op n op ->
+  nth i (lqo n op x) C0 = fold_left (fun acc tc => Cadd acc (nth i (lqo_term (fst tc) (snd tc) (tree_of n x)) C0)) op C0.
+Proof. exact lqo_is_sum_of_terms. Qed.
+Print Assumptions C06_linear_operator_is_sum_of_terms.
